@@ -44,6 +44,21 @@ theorem validate_sound (rendered plain : IR) (h : validate rendered plain = true
   simp only [validate, Bool.and_eq_true, decide_eq_true_eq] at h
   rw [← h.2, eval_inlineCse rendered h.1 ρ A]
 
+/-- (b, specification level, ONE binding) **A CSE step preserves meaning.**  Let `v` be any (aggregation-free) subterm and `x` a
+fresh name.  Replacing every occurrence of `v` below the bind site `t` by `(Ref x)` — except below binders that rebind a
+variable of `v`, where the occurrence denotes something else — and binding `x` to `v` in a `Let` immediately above the site gives
+a program with the same value in every environment.  (The renderer iterates such steps with its own choice of sites; that the
+stack machine implements exactly this function is NOT proved — its output is validated program by program, `validate_sound`.) -/
+theorem cse_step_preserves (ρ : Env) (A : List Env) (x : Name) (v t : IR)
+    (hx : x ∉ names t) (ht : aggFree t = true) (hv : aggFree v = true) :
+    eval ρ A (.let_ x v (abstractAt x v (fv v) t)) = eval ρ A t := by
+  rw [let_eq_subst ρ A x v _ hv (aggFree_abstractAt x v (fv v) t ht) (substOk_abstractAt x v (fv v) t ht hx),
+    subst_abstractAt x v (fv v) t hx]
+
+/-- the lifted binding of such a step is well-scoped exactly when `v` is well-scoped at the bind site, and the body may use `x` -/
+theorem cse_step_wellScoped (Γ : List Name) (Δ : Option (List Name)) (x : Name) (v b : IR)
+    (hv : WellScoped Γ Δ v) (hb : WellScoped (x :: Γ) Δ b) : WellScoped Γ Δ (.let_ x v b) := .let_ hv hb
+
 /-- (c) The executable scope check decides `WellScoped` — value scope and aggregation scope. -/
 theorem scopeOk_iff (Γ : List Name) (Δ : Option (List Name)) (t : IR) : scopeOk Γ Δ t = true ↔ WellScoped Γ Δ t :=
   ⟨scopeOk_sound t Γ Δ, scopeOk_complete⟩
@@ -69,6 +84,16 @@ theorem not_wellScoped_aggLet_none (Γ : List Name) (x : Name) (v b : IR) : ¬ W
   intro h; cases h
 
 /-! ## non-vacuity -/
+
+/-- `(x + 1) * (x + 1)` with `v = x + 1`: the step produces `let c = x + 1 in c * c` -/
+example : abstractAt (.cse 1) (.bin .add (.ref (.user "x")) (.i32 1)) [.user "x"]
+    (.bin .mul (.bin .add (.ref (.user "x")) (.i32 1)) (.bin .add (.ref (.user "x")) (.i32 1)))
+    = .bin .mul (.ref (.cse 1)) (.ref (.cse 1)) := by decide
+
+/-- below a lambda that rebinds `x` the occurrence of `x + 1` is left alone -/
+example : abstractAt (.cse 1) (.bin .add (.ref (.user "x")) (.i32 1)) [.user "x"]
+    (.streamMap (.user "x") (.toStream (.anil .int32)) (.bin .add (.ref (.user "x")) (.i32 1)))
+    = .streamMap (.user "x") (.toStream (.anil .int32)) (.bin .add (.ref (.user "x")) (.i32 1)) := by decide
 
 private def x : Name := .user "x"
 private def c1 : Name := .cse 1
